@@ -122,7 +122,7 @@ def v_rules(schema: Schema, rep: Report):
         # ... and ALL of them: the arguments are not re-bound to a selection / re-ordering of themselves before the loop
         # (dict.fromkeys / set / sorted / filter / a slice): a list that repeats a token (LANGUAGE ENG, FRA, ENG) loses members
         if va:
-            rebound = [s_ for s_ in ast.walk(fn) if isinstance(s_, (ast.Assign, ast.AugAssign, ast.AnnAssign)) and any(isinstance(t_, ast.Name) and t_.id == va for t_ in (s_.targets if isinstance(s_, ast.Assign) else [s_.target]))]
+            rebound = [s_ for s_ in ast.walk(fn) if isinstance(s_, (ast.Assign, ast.AugAssign, ast.AnnAssign)) and any(isinstance(t_, ast.Name) and t_.id == va for t_ in (s_.targets if isinstance(s_, ast.Assign) else [s_.target])) and text(getattr(s_, "value", None) or ast.Constant(value=None)).replace(" ", "") not in (f"tuple({va})", f"list({va})", f"{va}[:]")]
             rep.check("V-R2", f"{qn}:every-argument-kept", not rebound, f"`{text(rebound[0])[:60]}` re-binds the positional members before they are appended: repeated members are dropped or the order changes, so the model's list is not the document's" if rebound else "", f"{rel}:{(rebound[0] if rebound else fn).lineno}")
 
     rep.rule("V-R4", "Element.__set_name__ records the attribute name; __set__ stores under that name on the instance; __get__ reads the same slot (locals expanded, every returning path)")
